@@ -65,6 +65,22 @@ ombott.request.__init__({"REQUEST_METHOD": "GET"})
 static_stream.mimetypes.guess_type("/d/r/f")
 
 
+# Module-level containers of static_stream (the pinned tree has none) as they are after import.  Every explored path
+# and every native replay starts from this state = a process that has made no call yet; what a path's own earlier
+# calls leave behind stays visible to its later calls.  Without this, symbolic values stored by one path would be
+# found by the next one.
+_INITIAL = [(v, v.copy()) for k, v in vars(static_stream).items() if type(v) in (set, dict, list) and not k.startswith("__")]
+
+
+def new_process():
+    for live, initial in _INITIAL:
+        if isinstance(live, list):
+            live[:] = initial
+        else:
+            live.clear()
+            live.update(initial)
+
+
 # ---------------------------------------------------------------- reference semantics
 def lexical_location(base, name):
     """segments of the place `name` denotes when followed from directory `base` (tuple of segments from '/'),
@@ -151,6 +167,7 @@ def make_any(root_spelling, root, nmin, nmax, first=None):
         assume(nmin <= len(name) <= nmax)
         if first is not None:
             assume(FIRST[first](ord(name[0])))
+        new_process()
         return serve(root_spelling, root, name, head)
     return q
 
@@ -172,6 +189,7 @@ def make_shape(root_spelling, root, seglens, sep):
                 assume(name[i] == "/")
             else:
                 assume(name[i] != "/")
+        new_process()
         return serve(root_spelling, root, name, head)
     return q
 
@@ -179,16 +197,35 @@ def make_shape(root_spelling, root, seglens, sep):
 def make_twice(root_spelling, first, second, nmin, nmax):
     """Two calls in one process with the same (relative) root string and a different working directory: a harmless
     concrete request from `first` = (cwd, what the root names there), then every name from `second`.  Each call is
-    judged against what the root names at the time of that call.  Nothing is reset in between or between explored
-    paths: a correct static_file keeps no state, and every path performs the same two calls in the same order."""
+    judged against what the root names at the time of that call.  Nothing is reset between the two calls; every
+    path performs the same two calls in the same order (lru_caches live for the whole process, see keep_caches)."""
     def q(name: str, head: bool):
         assume(nmin <= len(name) <= nmax)
+        new_process()
         bad = serve(root_spelling, first[1], "f", False, first[0], "first-")
         if bad:
             return "first call (cwd %s, name 'f'): %s" % (first[0], bad)
         bad = serve(root_spelling, second[1], name, head, second[0])
         if bad:
             return "second call (cwd %s after a call with cwd %s): %s" % (second[0], first[0], bad)
+        return None
+    return q
+
+
+def make_tworoots(first, first_names, second, nmin, nmax):
+    """Two calls in one process with different roots, first = (spelling, location) serving the concrete first_names,
+    then second = (spelling, location) asked for every name.  Each call is judged against its own root.  As in
+    `twice`, every path performs the same calls in the same order."""
+    def q(name: str, head: bool):
+        assume(nmin <= len(name) <= nmax)
+        new_process()
+        for known in first_names:
+            bad = serve(first[0], first[1], known, False, CWD, "first-")
+            if bad:
+                return "first call (root %s, name %r): %s" % (first[0], known, bad)
+        bad = serve(second[0], second[1], name, head)
+        if bad:
+            return "second call (root %s after root %s served %r): %s" % (second[0], first[0], first_names, bad)
         return None
     return q
 
@@ -248,6 +285,21 @@ def build(tier):
                 out.append(Q(qid, make_twice(spelling, first, second, lo, hi), bound, timeout=timeout,
                              expect_cover=ALL_COVER + ["first-served-open"], family="twice",
                              config={"root": spelling, "cwd": [first[0], second[0]]}))
+    # an enclosing and a nested root in one process: (tag, outer, files of outer beside inner, inner, a file of inner)
+    pairs = [("upper-abs", ("/d", ("d",)), ["s", "rx", "r2/s"], ("/d/r", ("d", "r")), ["f"])]
+    if T:
+        pairs += [("abs-nested", ("/d/r", ("d", "r")), ["f"], ("/d/r/sub", ("d", "r", "sub")), ["g"]),
+                  ("upper-rel", ("/d/", ("d",)), ["s", "rx", "r2/s"], ("r", ("d", "r")), ["f"])]
+    for tag, outer, outer_names, inner, inner_names in pairs:
+        for order, first, names, second in (("outer-then-inner", outer, outer_names, inner),
+                                            ("inner-then-outer", inner, inner_names, outer)):
+            for lo, hi, split, timeout in SLICES[:3 if T else 2]:
+                span = "len%d" % hi if lo == hi else "len%d-%d" % (lo, hi)
+                bound = ("root %r serves %r, then root %r (= /%s) is asked for every name of %d..%d characters (any code "
+                         "points), GET and HEAD; cwd %s" % (first[0], names, second[0], "/".join(second[1]), lo, hi, CWD))
+                out.append(Q("tworoots/%s/%s/%s" % (tag, order, span), make_tworoots(first, names, second, lo, hi), bound,
+                             timeout=timeout, expect_cover=ALL_COVER + ["first-served-open"], family="tworoots",
+                             config={"roots": [first[0], second[0]], "first_names": names}))
     return out
 
 
